@@ -6,11 +6,17 @@ package sha3
 
 // Trusted library contract: hashing reads its inputs, writes nothing the caller can see and
 // returns a fresh 32-byte (64-byte) digest. The digest value is left uninterpreted.
+// Ghost record of the most recent Keccak256 call: its digest and, for a two-part message, the two
+// parts (ghost instrumentation; used by the key-store MAC contracts, C20).
+//@ ghost keccak_last (Array (_ BitVec 64) (_ BitVec 8))
+//@ ghost keccak_in0 Slice
+//@ ghost keccak_in1 Slice
 //@ func Keccak256
 //@   trusted
+//@   ensures keccak_last == arr(result) && off(result) == 0 && (len(data) == 2 ==> keccak_in0 == data[0] && keccak_in1 == data[1])
 //@   ensures len(result) == 32 && cap(result) >= 32 && fresh(result)
 //@   ensures len(data) == 1 && len(data[0]) == 40 ==> bigofbytes(arr(result), off(result), 32) == keccakv(word8(arr(data[0]), off(data[0])), word8(arr(data[0]), off(data[0]) + 8), word8(arr(data[0]), off(data[0]) + 16), word8(arr(data[0]), off(data[0]) + 24), word8(arr(data[0]), off(data[0]) + 32))
-//@   assigns nothing
+//@   assigns keccak_last, keccak_in0, keccak_in1
 
 //@ func Keccak512
 //@   trusted
